@@ -10,8 +10,11 @@
        back = projection of parse(wire)                        eq = (parse(wire) == original)
        got  = outcome of parse on the edited wire: "same" | "other" | "reject" | "error:<class>",
               gv = the value it returned when accepted
+       life = <<[m, sized, encoded, alen, wlen, tree]>> : what the SAME instance (the one that was sized and
+              encoded for v above) announced / encoded after each in-place change m (TlvModelLife); sized /
+              encoded say which of the two observations was made at that step
    For every record with failed checks TLC prints <<"V", id, <<tags>>>>.                    *)
-EXTENDS TlvModel, Json, IOUtils
+EXTENDS TlvModelLife, Json, IOUtils
 
 Recs == ndJsonDeserialize(IOEnv.JUDGE_IN)
 
@@ -25,6 +28,19 @@ Apply(L, e) == IF e.path = <<>> THEN ApplyLevel(L, e)
                ELSE [L EXCEPT ![Head(e.path)].kids = Apply(@, [e EXCEPT !.path = Tail(@)])]
 
 Sig(s) == [i \in 1 .. Len(s) |-> <<s[i].name, s[i].t, s[i].kind>>]
+\* the life of the instance: the value after each change is computed HERE (Mutate), the implementation is
+\* compared with AnnouncedLength / Encode of that value; tag = "life/<check>/<step>", first failing step only
+RECURSIVE LifeTags(_, _, _, _)
+LifeTags(s, v, steps, j) ==
+  IF steps = <<>> THEN <<>>
+  ELSE LET x == steps[1] IN
+       IF ~MutOk(s, v, x.m) THEN <<"ILLEGAL-INPUT">>
+       ELSE LET v2 == Mutate(s, v, x.m)
+                L == Encode(s, v2)
+                bad == (IF x.sized /\ x.alen # AnnouncedLength(s, v2) THEN <<"life/alen/" \o ToString(j)>> ELSE <<>>)
+                       \o (IF x.encoded /\ x.wlen # SeqSize(L) THEN <<"life/wlen/" \o ToString(j)>> ELSE <<>>)
+                       \o (IF x.encoded /\ x.tree # L THEN <<"life/tree/" \o ToString(j)>> ELSE <<>>)
+            IN IF bad # <<>> THEN bad ELSE LifeTags(s, v2, Tail(steps), j + 1)
 Tags(r) ==
   IF ~LegalModel(r.schema, r.v) THEN <<"ILLEGAL-INPUT">>
   ELSE
@@ -41,6 +57,7 @@ Tags(r) ==
      \* other representations / views of the same value (alt-repr, reencode, container, attr, asdict, repr): the
      \* harness compares them with the wire and value judged above; any disagreement is a failed check
      \o [j \in 1 .. Len(r.views) |-> "view/" \o r.views[j]]
+     \o (IF r.tree # L \/ r.alen # AnnouncedLength(s, r.v) THEN <<>> ELSE LifeTags(s, r.v, r.life, 1))
      \o (IF r.tree # L THEN <<>> ELSE        \* edits are positions in the tree: judged only on a correct base encoding
          Flat([j \in 1 .. Len(r.edits) |->
                LET e == r.edits[j]
